@@ -132,6 +132,42 @@ func runC01(tier string) int {
 			}
 		}
 	})
+	seqLen := 3
+	if tier == "thorough" {
+		seqLen = 4
+	}
+	if !r.Expired() {
+		forEachSequenceProgram(r, seqLen, func(w int, p engineProgram) {
+			scripts := []*model.Script{p.Script}
+			src := model.Print(scripts)
+			r.Add("programs", 1)
+			for _, opt := range []bool{true, false} {
+				ok, _, st, v, out := checkScripts(scripts, src, opt, machine.Lazy, nil)
+				if !ok {
+					r.Add("rejected_wellformed", 1)
+					continue
+				}
+				r.Add("evaluations", 1)
+				addStats(r, st)
+				if st.Reads > 0 && st.Events >= 2 {
+					r.Add("nontrivial", 1)
+				}
+				local[w][st.Fingerprint] = struct{}{}
+				if v != nil {
+					sc := p.Script
+					r.Report(harness.Violation{
+						Sig:     violationSig("C01", v) + ":sequence",
+						Summary: fmt.Sprintf("%s optimize=%v: %s\n  source: %q", p.Desc, opt, v, src),
+						Replay:  map[string]interface{}{"desc": p.Desc, "source": src, "optimize": opt, "reference_next_event": v.A.String(), "emitted_next_event": v.B.String(), "observable_prefix": v.Trace, "environment_in_failing_phase": v.Sigma, "emitted_assembly": out},
+						Recheck: func() bool {
+							_, _, _, v2, _ := checkScripts([]*model.Script{sc}, src, opt, machine.Lazy, nil)
+							return v2 != nil
+						},
+					})
+				}
+			}
+		})
+	}
 	for _, m := range local {
 		fpMu.Lock()
 		for k := range m {
@@ -145,7 +181,7 @@ func runC01(tier string) int {
 		"reference lowering (model/lower.go) = meaning of the README for if/elif/else, while, do...while, break, continue, switch, labels, goto",
 		"operands are distinct per leaf, so every path is feasible (a superset of programs that reuse operands)")
 	return r.Finish(r.Get("evaluations"), r.Get("nontrivial"),
-		"every script body with exactly n nodes of each family (count+unrank, bijective, so cases are distinct by construction) x every goto assignment x optimize on/off; each case = full product exploration reference x emitted, all game states closed by a visited set; non-trivial = at least one environment branch point and >= 2 distinct observable events")
+		"every script body with exactly n nodes of each family (count+unrank, bijective, so cases are distinct by construction) x every goto assignment, plus every sequence of <= L statement templates (22 templates covering every construct), x optimize on/off; each case = full product exploration reference x emitted, all game states closed by a visited set; non-trivial = at least one environment branch point and >= 2 distinct observable events")
 }
 
 // c01Shape is a coarse shape tag for findings matching.
